@@ -43,10 +43,11 @@ fn d1_model(op: usize, a: i128, s: i128) -> Option<i128> {
     if op == 1 {
         return Some(ce);
     }
-    // round: real duration arithmetic on the two candidates
-    let lhs = clamp(a - fl);
-    let rhs = clamp(clamp(ce - a).abs());
-    Some(if lhs < rhs { fl } else { ce })
+    // round: the nearer of the two exact candidates of the (D1-read) count, ties up, clamped afterwards
+    let f0 = t1 - t1.rem_euclid(s1);
+    let c0 = f0.checked_add(clamp(s.abs()))?;
+    let _ = (fl, ce);
+    Some(clamp(if t1 - f0 < c0 - t1 { f0 } else { c0 }))
 }
 
 fn d1_involved(a: i128, s: i128) -> bool {
@@ -86,19 +87,15 @@ pub fn j_dur(op: usize, a: i128, s: i128, out: &mut Local) -> Option<Duration> {
         };
     }
     let (t, f) = model(op, a, s);
-    if op == 2 && f < DMIN {
-        // round when the floor candidate is below the range: as next to MAX, "whichever of the two is nearer ... results
-        // saturate" has two readings (statement silent on which)
-        out.dc(1);
-        return None;
-    }
+
     // ceil when the floor is below the range: "the least multiple strictly greater than d" is unambiguous (and
     // representable), whatever happens to the floor itself
     let want = clamp(t);
     let nt = a < 0 || s < 0 || a.rem_euclid(s.abs()) == 0 || t != want;
-    // round when the ceil candidate is above the range: "whichever of the two is nearer ... results saturate"
-    // can be read as nearer-of(floor, true ceil) or nearer-of(floor, saturated ceil = MAX): accept both readings
-    let alt = if op == 2 && f + s.abs() > DMAX { Some(if a - f < DMAX - a { f } else { DMAX }) } else { None };
+    // round: "the two" are the floor and the ceil as the statement defines them (multiples of |s|); the nearer one is
+    // chosen first and the result saturates afterwards. (An earlier version also accepted the nearer of the SATURATED
+    // candidates next to MAX; the statement gives no ground for that reading: DESIGN.md §9.)
+    let alt: Option<i128> = None;
     match &got {
         Ok(d) if canonical(*d) && Some(alpha(*d)) == alt && alpha(*d) != want => {
             out.ok(1, true, 1 << 20);
